@@ -20,6 +20,7 @@ import (
 	"fmt"
 	"io"
 	"math"
+	"sort"
 	"time"
 
 	"github.com/pkg/errors"
@@ -227,6 +228,21 @@ func (b *backend) GetPartitions(ctx context.Context, r *proto.ListPartitionReque
 	if err != nil {
 		klog.Errorf("backend getPartitions %v return err %v", r, err)
 		return nil, err
+	}
+	// advertise the partitions in key order and, like the scanner, never split the versions of one
+	// key over two partitions: a border inside a key is moved to the key's revision key
+	sort.Slice(partitions, func(i, j int) bool {
+		return bytes.Compare(partitions[i].Start, partitions[j].Start) < 0
+	})
+	for i := range partitions {
+		if i != 0 {
+			partitions[i].Start = partitions[i-1].End
+		}
+		if i != len(partitions)-1 && len(partitions[i].End) > 12 {
+			if userKey, revision, err := b.coder.Decode(partitions[i].End); err == nil && revision != 0 {
+				partitions[i].End = b.coder.EncodeRevisionKey(userKey)
+			}
+		}
 	}
 	resp = &proto.ListPartitionResponse{
 		Header:       responseHeader(rev),
